@@ -6,17 +6,26 @@ LEVEL = 'other'
 TRUSTED = ['pyvc (VC generator, Python semantics of the stated subset)', 'z3 5.1.0 / cvc5',
            'specs/c18_diff.py: reference utilities of the four variants and the symbolic differentiator (cross-checked with sympy at every run)',
            'pyvc/libext/c18_transc.py: ground instances of exp/log/pow identities (A-TRANSC)',
-           'contracts/c18_sorts.py: Key / Index sort declarations of the mdcev fields and parameters']
+           'contracts/c18_sorts.py: Key / Index sort declarations of the mdcev fields and parameters',
+           'pyvc/libext/m3_c18_sets.py (round 3): LIBSPEC set iteration facts (members <-> enumerated positions) for C18; '
+           'sum(dict.values()) as ONE uninterpreted function of the dictionary content; specification name c18_total']
 ASSUMPTIONS = ['A-REAL: floats are mathematical reals (overflow clamp MAX_EXP_ARGUMENT of the translated model: stated for unclamped multipliers)',
                'A-TRANSC: exp(x)>0, log(exp x)=x, exp(log x)=x for x>0, exp(sum)=prod exp, exp(ite)=ite exp, b**c=exp(c log b) for b>0 '
                '(ground instances only, at the applications met in code and contracts)',
                'A-VALUE: Expression.get_value(), calculate_baseline_utility(), calculate_mu_utility() are pure functions of their arguments',
+               'ASSUMED contract Mdcev.identification_chosen_alternatives (A-VALUE): its answer (choice set, lower, upper) is a deterministic '
+               'function of model, row, budget and draw',
+               'ASSUMED contract Mdcev.optimal_consumption: a NEW dict with exactly one entry per alternative of the given set, whose total is a '
+               'function of (model, set, multiplier, draw, row); the call is recorded in ghost fields of the model that no code reads',
                'parameter domain: gamma>0, price>0, scale>0, 0<alpha<1, consumption>=0 (>0 for the outside good), multiplier>0 '
                '(> mu+epsilon for the non-monotonic model)']
 EXPLANATION = ('For the four MDCEV variants and every configuration at once (outside good / prices / scale are symbolic inputs), the real '
                'utility_one_alternative is proved equal to the reference utility, derivative_utility_one_alternative to its symbolic x-derivative, '
                'and optimal_consumption_one_alternative to invert that derivative; the bisection keeps an ordered bracket and stops only within '
-               'tolerance; a static sort analysis of the real AST separates alternative labels (Key) from positions (Index). '
+               'tolerance; round 3: it refuses IFF the identified bracket is empty, an end of the bracket only moves to a tried multiplier '
+               '(upper end: one that underspends the budget, lower end: one that overspends it) and the multiplier tried last did become '
+               'the end on its side, the consumptions returned are those of ONE call of optimal_consumption for the identified choice set at a '
+               'multiplier inside the identified bracket, completed with 0 for exactly the other alternatives of the model; a static sort analysis of the real AST separates alternative labels (Key) from positions (Index). '
                'Forecast feasibility/KKT/optimality/label-invariance, numeric==symbolic utility and Mdcev.__init__ are bounded stand-ins.')
 LEVEL_TEXT = ('Mixed: deductive proof (all parameter values, all configurations) for the 12 per-variant methods and the bisection bracket; '
               'static AST obligation for Key/Index sorts; bounded native stand-ins (labelled, with bounds) for the forecasts, the symbolic '
@@ -142,7 +151,8 @@ def extra(tier, seed):
     out.append(run_native('C18:bounded:forecast-solves-consumer-problem', 'c18_forecast.py', [str(draws), str(seed), str(brute)],
                           bound=f'4 variants x all configurations x labellings {{1,2,3}},{{3,7,10}},{{5,0,2}} x {draws} Gumbel draws x budgets '
                                 f'0.5/5/50: consumptions >= 0, budget exhausted, outside good consumed, KKT residual <= 1e-6, >= SLSQP '
-                                f'brute force on {brute} draws, identical under relabelling', timeout=1500))
+                                f'brute force on {brute} draws, identical under relabelling; sample test of the ASSUMED contracts of '
+                                f'identification_chosen_alternatives / optimal_consumption on every forecast', timeout=1500))
     out.append(run_native('C18:bounded:init-label-position-maps', 'c18_init.py', [str(10 if quick else 200), str(seed)],
                           bound='3 + N random label sets (2..6 integers in [-50,200]), every position of the outside good: '
                                 'key_to_index o index_to_key = id, one outside good, malformed inputs rejected'))
